@@ -10,7 +10,7 @@
 From CB Require Import Spec Unstable.
 From Coq Require Import Permutation.
 From CBP Require Import Step RefDefs C02Lemmas Arith AbsLemmas AllOps FaultDefs FaultPrims FaultDropA FaultDropB FaultUser
-     Iters DrainP ExtendIo CmpHash Ctors PhysMoves UnstableEq Access Views RefTruncate FillExtend FaultFrame SpecCorollaries.
+     Iters DrainP ExtendIo CmpHash Ctors PhysMoves MoreOps UnstableEq Access Views RefTruncate FillExtend FaultFrame SpecCorollaries.
 
 
 Theorem C11_total_or_documented :
@@ -29,7 +29,9 @@ Theorem C11_which_panic :
   match o with
   | OSwap i j => (i <? zlen l) && (j <? zlen l) = false
   | OIndex i | OIndexMutSet i _ => (i <? zlen l) = false
-  | ODrain sb eb _ _ | ORange sb eb _ | ORangeMut sb eb _ => spec_bounds (zlen l) sb eb = None
+  | ODrain sb eb _ _ | ORange sb eb _ | ORangeMut sb eb _
+  | OIterDebug sb eb _ | OIterMutDebug sb eb _ | ODrainDebug sb eb _ =>
+    spec_bounds (zlen l) sb eb = None
   | _ => False
   end.
 Proof. exact (spec_panics_iff). Qed.
